@@ -279,6 +279,7 @@ func opSv(c *core.Ctx, n int64) {
 
 func varintCase(c *core.Ctx, r *rand.Rand) {
 	c.NonTrivial()
+	encUtilsOps(c, r) // Round 12: utils.go + the 16/16 split of a uint32 (encutils.go)
 	n := 12 + r.Intn(20)
 	for k := 0; k < n; k++ {
 		switch r.Intn(9) {
